@@ -89,7 +89,8 @@ def shape(x, depth=0):
 
 def eval_clause(src, cmod, env):
     g = dict(cmod.__dict__)
-    return eval(compile(src, '<contract>', 'eval'), g, dict(env))
+    g.update(env)       # comprehensions inside eval only see globals
+    return eval(compile(src, '<contract>', 'eval'), g)
 
 
 def check_pure_call(contract, cmod, fn, params, args, obligation=None, nreal=None):
